@@ -31,7 +31,7 @@ def _prep_schema_specification(v) -> Optional[Union[Type, Set, Dict]]:
         return v
     elif isinstance(v, set):
         new_set = {_prep_schema_specification(vi) for vi in v}
-        new_set = {vi for vi in v if v is not None}
+        new_set = {vi for vi in new_set if vi is not None}
         for vi in new_set:
             assert not isinstance(vi, set)
         return new_set
